@@ -21,7 +21,11 @@
      Fresh          at rest a picker lists every node heard of (by a message that got through while this tracker ran) within the last E
      Stale          ... and no node that was never heard of, or that dropped since
      Expired        ... and no node silent for longer than E + U (expiry is evaluated once per update interval)
-     PickerTruth    ... and exactly what the add / rem calls left in it *)
+     PickerTruth    ... and exactly what the add / rem calls left in it
+     select t own self err   at rest, tracker t's picker routes the fixed keys k1..kn to own[i], saying self[i]; err = it refused to choose
+     Routes         Select fails exactly when the picker is empty; otherwise the owner is a listed node and "self" is said exactly of t
+     Agreement      two trackers whose pickers list the same nodes route every key to the same node (what a cluster routes by)
+     Consistent     between two looks at one picker a key changes hands only if its owner left or the new owner has just joined *)
 EXTENDS Integers, FiniteSets, Sequences
 CONSTANTS Nodes
 
@@ -29,12 +33,14 @@ Restrict(f, S) == [x \in S |-> f[x]]
 With(f, k, v) == [x \in DOMAIN f \cup {k} |-> IF x = k THEN v ELSE f[x]]
 Latch(m, v) == IF m.bad # "" \/ v = "" THEN m ELSE [m EXCEPT !.bad = v]
 MInit(u, e) == [U |-> u, E |-> e, now |-> 0, run |-> [t \in Nodes |-> "off"], next |-> [t \in Nodes |-> 0],
-                heard |-> [t \in Nodes |-> <<>>], member |-> [t \in Nodes |-> {}], announced |-> {}, muted |-> {}, owed |-> {}, bad |-> ""]
+                heard |-> [t \in Nodes |-> <<>>], member |-> [t \in Nodes |-> {}], announced |-> {}, muted |-> {}, owed |-> {},
+                sel |-> [t \in Nodes |-> [valid |-> FALSE, fresh |-> FALSE, view |-> {}, own |-> <<>>]], bad |-> ""]
 Listening(m) == {t \in Nodes : m.run[t] \in {"up", "cancelled"}}
 Up(m) == {t \in Nodes : m.run[t] = "up"}
 
 SUp(m, t) == [Latch(m, IF m.run[t] \in {"up", "cancelled"} THEN "Driver(up of a running tracker)" ELSE "")
-                EXCEPT !.run[t] = "up", !.next[t] = m.now + m.U, !.heard[t] = <<>>, !.member[t] = {}, !.owed = @ \cup {<<t, "?">>}]
+                EXCEPT !.run[t] = "up", !.next[t] = m.now + m.U, !.heard[t] = <<>>, !.member[t] = {}, !.owed = @ \cup {<<t, "?">>},
+                       !.sel[t] = [valid |-> FALSE, fresh |-> FALSE, view |-> {}, own |-> <<>>]]
 SCancel(m, t) == [m EXCEPT !.run[t] = "cancelled", !.owed = (@ \ {<<t, "+">>}) \cup {<<t, "-">>}]
 SDown(m, t) ==
   [Latch(m, IF <<t, "-">> \in m.owed THEN "DropOnExit(Run returned without publishing the drop)"
@@ -61,7 +67,8 @@ SAdd(m, t, n) ==
      EXCEPT !.member[t] = @ \cup {n}]
 SRem(m, t, n) == [m EXCEPT !.member[t] = @ \ {n}]
 SSettle(m) ==
-  Latch(m, IF \E t \in Nodes : <<t, "?">> \in m.owed THEN "Introduce(a started tracker sent no introduction request)"
+  Latch([m EXCEPT !.sel = [t \in Nodes |-> [@[t] EXCEPT !.fresh = FALSE]]],     (* a new look at the cluster: earlier routes are no longer "now" *)
+           IF \E t \in Nodes : <<t, "?">> \in m.owed THEN "Introduce(a started tracker sent no introduction request)"
            ELSE IF \E t \in Up(m) : <<t, "+">> \in m.owed THEN "Heartbeat(an update interval passed, or an introduction request arrived, without a heartbeat)"
            ELSE "")
 SView(m, t, S) ==
@@ -73,4 +80,20 @@ SView(m, t, S) ==
               ELSE IF ~(S \subseteq DOMAIN h) THEN "Stale(the picker lists a node that dropped or was never heard of)"
               ELSE IF S \cap gone # {} THEN "Expired(the picker lists a node silent for longer than expiry + update interval)"
               ELSE IF S # m.member[t] THEN "PickerTruth(the picker's list is not what the add / remove calls left)" ELSE "")
+SSelect(m, t, own, self, err) ==
+  IF m.run[t] # "up" THEN m ELSE
+  LET S == m.member[t]
+      prev == m.sel[t]
+      n == Len(own)
+      peers == {x \in Up(m) \ {t} : m.sel[x].fresh /\ m.sel[x].view = S /\ Len(m.sel[x].own) = n}
+  IN [Latch(m, IF S = {} THEN (IF err THEN "" ELSE "Routes(an empty picker chose a node)")
+               ELSE IF err THEN "Routes(a picker that lists nodes refused to choose)"
+               ELSE IF \E i \in 1..n : own[i] \notin S THEN "Routes(a key is routed to a node the picker does not list)"
+               ELSE IF \E i \in 1..n : self[i] # (own[i] = t) THEN "Routes(the self flag does not say whether the owner is this node)"
+               ELSE IF \E x \in peers : \E i \in 1..n : m.sel[x].own[i] # own[i] THEN "Agreement(two trackers with the same list route a key differently)"
+               ELSE IF prev.valid /\ Len(prev.own) = n /\ prev.view # {} /\
+                       \E i \in 1..n : own[i] # prev.own[i] /\ prev.own[i] \in S /\ own[i] \in prev.view
+                    THEN "Consistent(a key changed hands although its owner stayed and the new owner had been there before)"
+               ELSE "")
+       EXCEPT !.sel[t] = [valid |-> TRUE, fresh |-> TRUE, view |-> S, own |-> IF err THEN <<>> ELSE own]]
 =============================================================================
